@@ -433,6 +433,52 @@ def search(ctx):
             if nviol <= 5:
                 got = float.fromhex(r[1]) if r[0] == "fin" else r
                 rep.fail("failing-input", "%s.negloglike: %s" % (cls, fail[1]), fail[0], input=show(c), observed=got, expected=fail[2])
+    # (c) several evaluations on ONE object (the pipeline evaluates every function of a library on the same likelihood object):
+    #     every call returns the documented value for the data the object was built with -- also after the identity model `x`,
+    #     whose lambdified function returns the object's own x array
+    seqs = []
+    for cls in CLASSES:
+        for _ in range(6 if ctx.quick else 60):
+            n = rng.randint(2, 8)
+            lo_ = 1
+            x = [dy(rng, lo_, 64) for _ in range(n)]
+            y = [dy(rng, 1, 120) for _ in range(n)]
+            sg = [dy(rng, 1, 40, 8) for _ in range(n)]
+            steps = []
+            for _k in range(rng.randint(2, 5)):
+                if rng.random() < 0.4:
+                    steps.append({"kind": "alias_x", "vals": []})
+                else:
+                    steps.append({"kind": "vec", "vals": [dy(rng, 1, 160) for _ in range(n)]})
+            if not any(st["kind"] == "alias_x" for st in steps[:-1]):
+                steps.insert(0, {"kind": "alias_x", "vals": []})
+            seqs.append({"cls": cls, "x": x, "y": y, "s": sg, "steps": steps})
+    sans = run_impl(ctx, "seq", seqs)
+    nseqbad = 0
+    for c, a in zip(seqs, sans):
+        rep.case(key=("seq", c["cls"], len(c["steps"])), nontrivial=True)
+        for k, (st, ra) in enumerate(zip(c["steps"], a["steps"])):
+            import mpmath as mp
+            vals = c["x"] if st["kind"] == "alias_x" else st["vals"]
+            tot, mag = closed_form(c["cls"], [tofloat(v) for v in c["y"]], [tofloat(v) for v in c["s"]], [tofloat(v) for v in vals])
+            r = ra["r"]
+            bad = None
+            if r[0] != "fin":
+                bad = "returned %r for a finite in-domain prediction" % (r,)
+            elif abs(mp.mpf(float.fromhex(r[1])) - tot) > mp.mpf(10) ** -12 * mag + mp.mpf(10) ** -300:
+                bad = "returned %r, the documented value for the object's data is %s" % (float.fromhex(r[1]), mp.nstr(tot, 17))
+            if bad and k > 0 and not a["steps"][k - 1]["data_unchanged"]:
+                bad += " (an earlier call of the sequence modified the data stored in the object)"
+            if bad:
+                nseqbad += 1
+                if nseqbad <= 3:
+                    rep.fail("failing-input", "%s.negloglike, call %d of a sequence on one object (%s): %s" % (
+                        c["cls"], k + 1, "identity model x" if st["kind"] == "alias_x" else "given prediction", bad),
+                        "C09:%s:sequence" % c["cls"],
+                        input={"class": c["cls"], "x": [pretty(v) for v in c["x"]], "y": [pretty(v) for v in c["y"]], "sigma": [pretty(v) for v in c["s"]],
+                               "steps": [("x itself" if t["kind"] == "alias_x" else [pretty(v) for v in t["vals"]]) for t in c["steps"]]},
+                        observed=ra, expected=mp.nstr(tot, 17))
+                break
     # observations outside the property's statement (recorded, not judged)
     rep.extra["notes"] = [
         "CCLikelihood/MockLikelihood.get_pred have no try/except: a raising model function propagates out of negloglike "
